@@ -140,8 +140,9 @@ pub fn finish(verif_dir: &str, prop: &str, tier: &str, seed: i64, start: Instant
             None => new_viols.push(v),
         }
     }
+    let mut lines: Vec<String> = Vec::new();
     for (w, _) in &known {
-        println!("KNOWN-FINDING: property={} {}", prop, w);
+        lines.push(format!("KNOWN-FINDING: property={} {}", prop, w));
     }
     let mut replay_paths = Vec::new();
     if !new_viols.is_empty() {
@@ -152,8 +153,8 @@ pub fn finish(verif_dir: &str, prop: &str, tier: &str, seed: i64, start: Instant
             let s = serde_json::to_string_pretty(&body).unwrap();
             let path = format!("{}/{:016x}.json", dir, fnv(&format!("{}{}", v.class, v.case)));
             let _ = std::fs::write(&path, s);
-            println!("VIOLATION property={} replay={}", prop, path);
-            println!("  class={} {}", v.class, v.what);
+            lines.push(format!("VIOLATION property={} replay={}", prop, path));
+            lines.push(format!("  class={} {}", v.class, v.what));
             replay_paths.push(path);
         }
     }
@@ -177,6 +178,9 @@ pub fn finish(verif_dir: &str, prop: &str, tier: &str, seed: i64, start: Instant
     let _ = std::fs::create_dir_all(format!("{}/evidence", verif_dir));
     std::fs::write(format!("{}/evidence/{}.json", verif_dir, prop), serde_json::to_string_pretty(&ev).unwrap())
         .expect("cannot write evidence");
+    for l in lines {
+        println!("{}", l);
+    }
     if new_viols.is_empty() {
         0
     } else {
